@@ -117,8 +117,20 @@ func (k *clock) write(reg, v uint8) {
 	}
 }
 
+// newMachine builds a cartridge with a clock: both cartridge types that have one (0F without
+// RAM, 10 with RAM), ROM and RAM sizes varied, in rotation.
+var machines int
+
 func newMachine() *rig.Machine {
-	m := rig.MustNew(rig.SignatureROM(0x10, 1, 3), rig.Opts{})
+	machines++
+	cart, ram := uint8(0x10), uint8(3)
+	switch machines % 4 {
+	case 1:
+		cart, ram = 0x0f, 0
+	case 2:
+		ram = 2
+	}
+	m := rig.MustNew(rig.SignatureROM(cart, uint8(1+machines%3), ram), rig.Opts{})
 	m.Quiet()
 	return m
 }
